@@ -76,6 +76,7 @@ func genHistory(t *rapid.T, signal string, k gen.Knobs, interleave bool) (*Strea
 		}
 		c.Batches = append(c.Batches, genBatch(s, signal))
 	}
+	insertBigPayload(t, c, s, signal, interleave || boundaryAt >= 0)
 	return c, s
 }
 
